@@ -351,6 +351,8 @@ package interpreter
 
 // (arrays are values: a built-in that returns an array returns one it has just made - never an argument's
 // backing array or a window onto it, which a later in-place operation on either would corrupt)
+// (C02: the built-ins both engines offer are held to one oracle in contracts/lang.spec: which argument kinds are
+// accepted, and the result in terms of the same library functions / the same code-point count)
 // ---- built-in functions (C04, C01): no argument vector makes a built-in panic (strict: no index, slice, nil,
 // ---- type-assertion, division, allocation-size panic); errors are returned as GlyphLang-level errors
 //@ func builtinTimeNow
@@ -363,22 +365,35 @@ package interpreter
 //@   strict
 //@ func builtinUpper
 //@   strict
+//@   checkif local(err) == nil ==> ((result1 == nil) == (kindI(arg) == 3))
+//@   checkif result1 == nil && kindI(arg) == 3 ==> typeis(result, string) && result.(string) == libcall(strings.ToUpper, arg.(string))
 //@ func builtinLower
 //@   strict
+//@   checkif local(err) == nil ==> ((result1 == nil) == (kindI(arg) == 3))
+//@   checkif result1 == nil && kindI(arg) == 3 ==> typeis(result, string) && result.(string) == libcall(strings.ToLower, arg.(string))
 //@ func builtinTrim
 //@   strict
+//@   checkif local(err) == nil ==> ((result1 == nil) == (kindI(arg) == 3))
+//@   checkif result1 == nil && kindI(arg) == 3 ==> typeis(result, string) && result.(string) == libcall(strings.TrimSpace, arg.(string))
 //@ func builtinSplit
 //@   strict
 //@ func builtinJoin
 //@   strict
 //@ func builtinContains
 //@   strict
+//@   checkif local(err) == nil ==> ((result1 == nil) == (kindI(strArg) == 3 && kindI(substrArg) == 3))
+//@   checkif result1 == nil && kindI(strArg) == 3 && kindI(substrArg) == 3 ==> typeis(result, bool) && result.(bool) == libcall(strings.Contains, strArg.(string), substrArg.(string))
 //@ func builtinReplace
 //@   strict
 //@ func builtinSubstring
 //@   strict
+//@   checkif local(err) == nil && kindI(strArg) == 3 && kindI(startArg) == 1 && kindI(endArg) == 1 ==> ((result1 == nil) == subOK(strArg.(string), startArg.(int64), endArg.(int64)))
 //@ func builtinLength
 //@   strict
+//@   checkif local(err) == nil ==> ((result1 == nil) == lenOK(kindI(arg)))
+//@   checkif result1 == nil && kindI(arg) == 3 ==> typeis(result, int64) && result.(int64) == runecount(arg.(string))
+//@   checkif result1 == nil && kindI(arg) == 5 ==> typeis(result, int64) && result.(int64) == len(arg.([]interface{}))
+//@   checkif result1 == nil && kindI(arg) == 6 ==> typeis(result, int64) && result.(int64) == len(arg.(map[string]interface{}))
 //@ func builtinStartsWith
 //@   strict
 //@ func builtinEndsWith
